@@ -229,7 +229,7 @@ pub(super) fn compile_instruction(ctx: &mut Context, data: MatchData) -> Result<
 
                     } else {
                         dynamics.push((offset, quote_spanned!{ value.span()=>
-                            { let _dyn_imm: u32 = #value; (#value >> #shift) & #mask }
+                            { let _dyn_imm: u32 = #value; ((#value) >> #shift) & #mask }
                         }));
                     }
                 },
@@ -338,11 +338,11 @@ pub(super) fn compile_instruction(ctx: &mut Context, data: MatchData) -> Result<
                         statics.push((offset, number & mask));
                     } else {
                         let check = quote_spanned!{ value.span()=>
-                            if (#value - 1u32) > (#mask - #prev_value) { ::dynasmrt::aarch64::immediate_out_of_range_unsigned_32(#value); }
+                            if ((#value) - 1u32) > (#mask - (#prev_value)) { ::dynasmrt::aarch64::immediate_out_of_range_unsigned_32(#value); }
                         };
 
                         dynamics.push((offset, quote_spanned!{ value.span()=>
-                            { let _dyn_imm: u32 = #value; #check; (#prev_value + _dyn_imm - 1) & #mask }
+                            { let _dyn_imm: u32 = #value; #check; ((#prev_value) + _dyn_imm - 1) & #mask }
                         }));
                     }
                 },
@@ -365,7 +365,7 @@ pub(super) fn compile_instruction(ctx: &mut Context, data: MatchData) -> Result<
 
                             } else {
                                 dynamics.push((field, quote_spanned!{ value.span()=>
-                                    (#value >> #i) & 1
+                                    ((#value) >> #i) & 1
                                 }));
                             }
                         }
@@ -453,7 +453,7 @@ pub(super) fn compile_instruction(ctx: &mut Context, data: MatchData) -> Result<
                     if check.is_none() {
 
                         let check = quote_spanned!{ value.span()=>
-                            if (#value - 1u32) > (#mask - #prev_value) { ::dynasmrt::aarch64::immediate_out_of_range_unsigned_32(#value); }
+                            if ((#value) - 1u32) > (#mask - (#prev_value)) { ::dynasmrt::aarch64::immediate_out_of_range_unsigned_32(#value); }
                         };
 
                         dynamics.push((0, quote_spanned! { value.span()=>
@@ -536,7 +536,7 @@ pub(super) fn compile_instruction(ctx: &mut Context, data: MatchData) -> Result<
                                 { let _dyn_imm: i32 = #value; #check; ((_dyn_imm >> 2u8) as u32) & 0x7FFFFu32 }
                             }));
                             dynamics.push((29, quote_spanned!{ value.span()=>
-                                (#value as u32) & 3u32
+                                ((#value) as u32) & 3u32
                             }));
                         }
                     },
@@ -555,7 +555,7 @@ pub(super) fn compile_instruction(ctx: &mut Context, data: MatchData) -> Result<
                                 { let _dyn_imm: i32 = #value; #check; ((_dyn_imm >> 14u8) as u32) & 0x7FFFFu32 }
                             }));
                             dynamics.push((29, quote_spanned!{ value.span()=>
-                                ((#value >> 12u8) as u32) & 3u32
+                                (((#value) >> 12u8) as u32) & 3u32
                             }));
                         }
                     },
